@@ -414,12 +414,12 @@ PROPS["C15"] = {
                    "membership, ext blocks, so the evidence shows the droppable features actually travelled through the loop."),
     "level_note": "Sampled. Whether the first export itself is complete is C04's subject; this check decides only the round trip.",
     "rule": ("j5s: j5sgen bundles (1-3 packages with imports, entities, services, topics, every field kind and rule) compiled, printed, read back by protosrc.ReadFSImage and exported by "
-             "APIFromImage. raw: pgen Supported-mode file (nested, recursive, wrappers, maps, arrays, annotated) optionally plus a second file in another package or a sub-package whose "
+             "APIFromImage. raw: pgen Annotated-mode file (the supported subset: nested, recursive, wrappers, maps, arrays, plus validate / list / j5 field annotations consistent with each field, enum option info, any membership) optionally plus a second file in another package or a sub-package whose "
              "message references the first file's messages and enums and itself. Non-trivial: the export has >=3 schemas and carries at least one rules / list_rules / info / entity / "
              "types field. Distinct by hash of the sources."),
     "assumptions": ["APIFromImage is the export the property names; cases it rejects are discarded here and decided by C16/C18"],
     "lanes": [
         lane("TestJ5S", "j5s", 300, 2000, shards=16, must_classes=["multi-package"]),
-        lane("TestRaw", "raw", 600, 6000, shards=16, must_classes=["cross:1", "cross:2"]),
+        lane("TestRaw", "raw", 600, 6000, shards=16, must_classes=["cross:1", "cross:2", "ann:enum-info", "ann:any", "ann:list-rules", "ann:repeated-rules", "ann:date-rules", "ann:key-id62"]),
     ],
 }
